@@ -66,7 +66,7 @@ theorem step_inv (env : Env) (lt : Node → Node → Prop) (ho : StrictOrder lt)
       unfold St.setValue
       simp only []
       split
-      · rw [this]; exact hidx
+      · exact hidx
       · unfold St.addNode; split <;> (simp only []; rw [this]; exact hidx)
     · exact ⟨g, hst, hidx⟩
   | clearAt n =>
